@@ -132,6 +132,15 @@ def lookupLast {α : Type} (k : String) : List (String × α) → Option α
     | some r => some r
     | none => if k' == k then some v else none
 
+/-- Python `d[k] = v`: an existing key keeps its position and gets the new value, a new key is appended -/
+def dictSet (d : List (String × PV)) (k : String) (v : PV) : List (String × PV) :=
+  if d.any (fun p => p.1 == k) then d.map (fun p => if p.1 == k then (k, v) else p) else d ++ [(k, v)]
+
+/-- the dict that results from a sequence of assignments `coerced[python_name] = value` (two fields / arguments that
+    share a python name collide: the later value wins, at the earlier position) -/
+def dictOfAssignments (kvs : List (String × PV)) : List (String × PV) :=
+  kvs.foldl (fun d p => dictSet d p.1 p.2) []
+
 def mapE {α β : Type} (f : α → Except Err β) : List α → Except Err (List β)
   | [] => .ok []
   | x :: xs =>
@@ -390,7 +399,7 @@ def coerceInputObject (rec : Ty → JV → R) (fields : List InField) (v : JV) :
   | .obj kvs =>
     match fieldLoopC (fun k => lookupLast k kvs) rec fields with
     | .error e => .error e
-    | .ok r => if allKnown fields kvs then .ok (.dict r) else .error .coercion
+    | .ok r => if allKnown fields kvs then .ok (.dict (dictOfAssignments r)) else .error .coercion
   | _ => .error .coercion
 
 /-- body of `coerce_value` after the non-null test, on the stripped type -/
@@ -436,7 +445,7 @@ def extractVariable (vars : Option (List (String × PV))) (ty : Ty) (x : String)
 def extractInputObject (rec : Ty → Lit → R) (fields : List InField) (lkvs : List (String × Lit)) : R :=
   match fieldLoop (fun k => lookupLast k lkvs) rec fields with
   | .error e => .error e
-  | .ok r => if allKnown fields lkvs then .ok (.dict r) else .error .coercion
+  | .ok r => if allKnown fields lkvs then .ok (.dict (dictOfAssignments r)) else .error .coercion
 
 /-- body of `value_from_ast` after the variable and non-null tests, on the stripped type -/
 def vfaCore (reg : Reg) (rec : Ty → Lit → R) (t : Ty) (l : Lit) : R :=
@@ -552,5 +561,62 @@ def coerceArgumentValues (reg : Reg) (fuel : Nat) (vars : List (String × PV)) (
         match o with
         | some pv => .ok ((d.pyName, pv) :: r)
         | none => .ok r
+
+/-! ### enough fuel: the fuel-free functions -/
+
+def fieldsWidth : List InField → Nat
+  | [] => 0
+  | f :: fs => max f.type.size (fieldsWidth fs)
+
+def typesWidth : List (String × NamedT) → Nat
+  | [] => 0
+  | p :: r =>
+    match p.2 with
+    | .input fs => max (fieldsWidth fs) (typesWidth r)
+    | _ => typesWidth r
+
+/-- "depth" of the registry: the largest number of wrappers + 1 of any input field's type -/
+def Reg.width (r : Reg) : Nat := typesWidth r.types
+
+/-- a recursion budget that always suffices: size of the position's type + (registry width + 1) × size of the value.
+    (Every recursive call either descends into the value — and then restarts at a field type, at most `width` large —
+    or keeps the value and peels one list wrapper off the type.) -/
+def fuelFor (reg : Reg) (ty : Ty) (valueSize : Nat) : Nat := ty.size + (reg.width + 1) * valueSize
+
+/-- `coerce_value`, fuel-free -/
+noncomputable def coerceValueT (reg : Reg) (ty : Ty) (v : JV) : R := coerceValue reg (fuelFor reg ty (sizeOf v)) ty v
+
+/-- `value_from_ast`, fuel-free -/
+noncomputable def valueFromAstT (reg : Reg) (vars : Option (List (String × PV))) (ty : Ty) (l : Lit) : R :=
+  valueFromAst reg vars (fuelFor reg ty (sizeOf l)) ty l
+
+/-! ### the validator's condition on variable usages (validation/rules: VariablesInAllowedPosition, Schema.is_subtype) -/
+
+/-- `Schema.is_subtype(type_, super_type)` on input types (no abstract types among them) -/
+def isSubtype : Ty → Ty → Bool
+  | .named a, b => b == .named a                                            -- `type_ == super_type`, else nothing applies
+  | .list a, b =>
+    b == .list a ||
+      match b with
+      | .list b' => isSubtype a b'                                          -- both ListType: compare the item types
+      | _ => false                                                          -- `isinstance(type_, ListType): return False`
+  | .nonNull a, b =>
+    b == .nonNull a ||
+      match b with
+      | .nonNull b' => isSubtype a b'                                       -- both NonNullType
+      | _ => isSubtype a b                                                  -- `isinstance(type_, NonNullType)`: strip it
+
+/-- `var_default is not None and type(var_default) != NullValue` -/
+def VarDef.hasNonNullDefault (d : VarDef) : Bool :=
+  match d.default with
+  | some .null => false
+  | some _ => true
+  | none => false
+
+/-- the test of `VariablesInAllowedPositionChecker.leave_document` for one usage (`true` = no error is reported) -/
+def allowedUsage (varTy : Ty) (varDefaultNonNull : Bool) (locTy : Ty) (locHasDefault : Bool) : Bool :=
+  if locTy.isNonNull && !varTy.isNonNull then
+    (varDefaultNonNull || locHasDefault) && isSubtype varTy (stripNN locTy)
+  else isSubtype varTy locTy
 
 end PyGql.Coerce
